@@ -318,9 +318,21 @@ class Interp:
             raise Unsupported("== on symbolic lists")
         return a == b
 
+    def mangle(self, attr, fr):
+        """private name mangling inside a class body: __x -> _Cls__x"""
+        if attr.startswith("__") and not attr.endswith("__"):
+            f = fr
+            while f is not None and "__fn__" not in f.locals:
+                f = f.parent
+            if f is not None:
+                q = f.locals["__fn__"].__qualname__.split(".")
+                if len(q) >= 2:
+                    return "_" + q[-2].lstrip("_") + attr
+        return attr
+
     def e_Attribute(self, n, fr):
         obj = self.eval(n.value, fr)
-        return self.getattr(obj, n.attr, n)
+        return self.getattr(obj, self.mangle(n.attr, fr), n)
 
     def getattr(self, obj, attr, n=None):
         eng = self.engine
@@ -449,10 +461,10 @@ class Interp:
             return self.call_function(fn.fn, [recv] + list(args), kwargs)
         if isinstance(fn, types.MethodType):
             # bound method of a concrete object
+            h = eng.callee_for(fn.__func__)
+            if h is not None:
+                return h(self, [fn.__self__] + list(args), kwargs)
             if self.all_concrete([fn.__self__] + list(args) + list(kwargs.values())):
-                h = eng.callee_for(fn.__func__)
-                if h is not None:
-                    return h(self, [fn.__self__] + list(args), kwargs)
                 return eng.native_call(self, fn, args, kwargs)
             return self.call_function(fn.__func__, [fn.__self__] + list(args), kwargs)
         if isinstance(fn, type):
